@@ -931,9 +931,57 @@ func (x *Exec) assign(st *State, lhs, rhs ast.Expr, env *Env) []*State {
 		for f, t := range fields {
 			c = c.Bind(lkey+"."+f, t)
 		}
+		if fields == nil && rhs != nil {
+			c = x.copyFields(c, lkey, rhs, env)
+		}
 		out = append(out, x.Spec.Assign(x, c, lhs, rhs, val))
 	}
 	return out
+}
+
+// copyFields: dst (a variable, parameter or result of struct type) receives a
+// copy of the struct value src: whatever is known about src's fields is now
+// known about dst's.
+func (x *Exec) copyFields(st *State, dstKey string, src ast.Expr, env *Env) *State {
+	src = ast.Unparen(src)
+	t := x.P.TypeOf(src)
+	if t == nil {
+		return st
+	}
+	if _, isStruct := t.Underlying().(*types.Struct); !isStruct {
+		return st
+	}
+	if cl, ok := src.(*ast.CompositeLit); ok {
+		for _, el := range cl.Elts {
+			if kv, ok := el.(*ast.KeyValueExpr); ok {
+				if id, ok := kv.Key.(*ast.Ident); ok {
+					st = st.Bind(dstKey+"."+id.Name, x.valueTerm(st, kv.Value, env))
+				}
+			}
+		}
+		return st
+	}
+	srcKey := ""
+	switch v := src.(type) {
+	case *ast.CallExpr:
+		srcKey = resKey(x.Tok(v.Pos()), 0)
+	case *ast.Ident, *ast.SelectorExpr:
+		srcKey = x.canonEnv(src, env)
+	}
+	if srcKey == "" || srcKey == dstKey {
+		return st
+	}
+	keys := make([]string, 0)
+	for k := range st.Store {
+		if strings.HasPrefix(k, srcKey+".") {
+			keys = append(keys, k)
+		}
+	}
+	sort.Strings(keys)
+	for _, k := range keys {
+		st = st.Bind(dstKey+strings.TrimPrefix(k, srcKey), st.Store[k])
+	}
+	return st
 }
 
 func compositeOf(e ast.Expr) *ast.CompositeLit {
@@ -1571,6 +1619,7 @@ func (x *Exec) inlineCall(st *State, call *ast.CallExpr, decl *ast.FuncDecl, env
 			if (val.K == KSym && !strings.ContainsAny(val.S, "{")) || val.K == KConst {
 				n = n.Unbind("~" + key)
 			}
+			n = x.copyFields(n, key, b.arg, env)
 			next = append(next, n)
 		}
 		states = next
@@ -1649,7 +1698,7 @@ func (x *Exec) inlineCall(st *State, call *ast.CallExpr, decl *ast.FuncDecl, env
 								nx = append(nx, o.St.Bind(resKey(tok, ri), boolTerm(o.V)))
 							}
 						} else {
-							nx = append(nx, cur.Bind(resKey(tok, ri), x.valueTerm(cur, r, nil)))
+							nx = append(nx, x.copyFields(cur.Bind(resKey(tok, ri), x.valueTerm(cur, r, nil)), resKey(tok, ri), r, nil))
 						}
 					}
 					rets = nx
